@@ -267,7 +267,10 @@ impl TransferImportManager {
             namespace_name: Some(value.namespace_name),
             r#type: Some(NamespaceFromFlags::get_db_type(value.flag)),
         };
-        let req = ClientRequest::NamespaceReq(NamespaceRaftReq::Update(param));
+        // Set, not Update: Update changes nothing for a namespace the target does not know yet, so the backup's
+        // namespaces were lost - or, when another imported item (a service, a config) had already made the
+        // namespace "in use", applied depending on whether that notice had reached the namespace actor
+        let req = ClientRequest::NamespaceReq(NamespaceRaftReq::Set(param));
         Self::send_raft_request(raft, req).await?;
         Ok(())
     }
